@@ -148,6 +148,90 @@ def scenarios():
     return S
 
 
+def gen_scenario(rng):
+    """A random well-formed scenario: 1-2 applications, 1-4 requests (create/receive, keep/measure, 1-3 pairs, sockets 0-1,
+    remotes 1-2), optionally target qubits that are busy when the request is issued and freed before the first wait,
+    waits in random order (interleaved with later requests when no target is busy)."""
+    napps = rng.choice([1, 1, 2])
+    nreq_total = rng.randrange(1, 5)
+    per_app = [[] for _ in range(napps)]
+    for _ in range(nreq_total):
+        per_app[rng.randrange(napps)].append(None)
+    per_app = [x for x in per_app if x] or [[None]]
+    napps = len(per_app)
+    sockets = rng.choice([[0], [0], [0, 1]])
+    remotes = rng.choice([[1], [1], [1, 2]])
+    # keys used by more than one application carry a single type (the stream content must not depend on issue order)
+    key_type = {}
+    plans = []
+    for ai in range(napps):
+        reqs = []
+        for _ in per_app[ai]:
+            key = (rng.choice(remotes), rng.choice(sockets), rng.choice(["create", "recv"]))
+            reqs.append({"key": key, "tp": rng.choice("KM"), "n": rng.choice([1, 1, 2, 3])})
+        plans.append(reqs)
+    users = {}
+    for ai, reqs in enumerate(plans):
+        for r in reqs:
+            users.setdefault(r["key"], set()).add(ai)
+    for key, us in users.items():
+        if len(us) > 1:
+            key_type[key] = rng.choice("KM")
+    apps, requests = [], []
+    for ai, reqs in enumerate(plans):
+        nextq = 0
+        busy = []
+        text_req, waits = [], []
+        allow_busy = rng.random() < 0.4
+        for ri, r in enumerate(reqs):
+            r["tp"] = key_type.get(r["key"], r["tp"])
+            res, qa, args = 3 * ri, 3 * ri + 1, 3 * ri + 2
+            remote, socket, role = r["key"]
+            qids = None
+            if r["tp"] == "K":
+                qids = list(range(nextq, nextq + r["n"]))
+                nextq += r["n"]
+                if allow_busy and rng.random() < 0.5:
+                    busy.append(rng.choice(qids))
+            if role == "recv":
+                t = recv_k(res, qa, qids, socket=socket, remote=remote) if r["tp"] == "K" else recv_m(res, r["n"], socket=socket, remote=remote)
+            else:
+                t = create(res, qa, qids, args, 0 if r["tp"] == "K" else 1, r["n"], socket=socket, remote=remote)
+            text_req.append(t)
+            waits.append(wall(res, r["n"]))
+            requests.append(req(ai, role, r["tp"], r["n"], res, qids, socket=socket, remote=remote))
+        text = "".join(f"set Q0 {v}\nqalloc Q0\n" for v in busy)
+        if busy:
+            text += "".join(text_req) + "set R5 1\nadd R5 R5 R5\n" + "".join(f"set Q0 {v}\nqfree Q0\n" for v in busy)
+            rng.shuffle(waits)
+            text += "".join(waits)
+        else:
+            pending = []
+            for t, w in zip(text_req, waits):
+                text += t
+                pending.append(w)
+                while pending and rng.random() < 0.3:
+                    text += pending.pop(rng.randrange(len(pending)))
+            rng.shuffle(pending)
+            text += "".join(pending)
+        if rng.random() < 0.3:
+            text += "ret_arr @0\n"
+        apps.append({"app": ai, "unit": max(1, nextq) + rng.randrange(2), "text": text})
+    streams = []
+    for key in sorted(users):
+        resp = []
+        if key in key_type:
+            total = sum(r["n"] for reqs in plans for r in reqs if r["key"] == key)
+            resp = K(total, [rng.randrange(4) for _ in range(total)]) if key_type[key] == "K" else M(total)
+        else:
+            (ai,) = users[key]
+            for r in plans[ai]:
+                if r["key"] == key:
+                    resp += K(r["n"], [rng.randrange(4) for _ in range(r["n"])]) if r["tp"] == "K" else M(r["n"])
+        streams.append({"key": list(key), "responses": resp})
+    return {"name": "generated", "apps": apps, "requests": requests, "streams": streams, "qlink10": rng.random() < 0.15}
+
+
 def cases(ctx):
     scs = scenarios()
     k = 0
@@ -163,10 +247,16 @@ def cases(ctx):
                    "seed": ctx.rng.randrange(2**31)}
 
 
+    for _ in range(ctx.n(120, 6000)):
+        sc = gen_scenario(ctx.rng)
+        yield {"kind": "generated", "scenario": -1, "name": "generated", "inline": sc, "n": 12 if ctx.quick else 40,
+               "dfs_limit": 150 if ctx.quick else 600, "seed": ctx.rng.randrange(2**31)}
+
+
 def run_case(ctx, case):
     import random
     from vf.common import h64
-    sc = scenarios()[case["scenario"]]
+    sc = case.get("inline") or scenarios()[case["scenario"]]
     if case["kind"] == "replay":
         try:
             se.replay(sc, case["picks"])
@@ -183,16 +273,23 @@ def run_case(ctx, case):
             ctx.count("deferred_deliveries_seen", run.deferred_events)
             ctx.count("early_arrivals_seen", run.early_arrivals)
             nontrivial = bool(run.deferred_events or run.early_arrivals or len(sc["requests"]) >= 2)
-        hv = h64([case["scenario"], picks])
+        hv = h64([case.get("inline") or case["scenario"], picks])
         ctx.all_hashes.add(hv)
         if nontrivial:
             ctx.nontrivial_hashes.add(hv)
         if viol is not None:
-            ctx.fail({"kind": "replay", "scenario": case["scenario"], "name": sc["name"], "picks": list(picks),
+            ctx.fail({"kind": "replay", "scenario": case["scenario"], "inline": case.get("inline"), "name": sc["name"], "picks": list(picks),
                       "events": [list(e) for e in (run.events if run is not None else [])]},
                      f"scenario {sc['name']}, schedule {[list(e) for e in (run.events if run is not None else [])]}: {viol}")
 
-    if case["kind"] == "dfs":
+    if case["kind"] == "generated":
+        ctx.count("generated_scenarios")
+        n, complete = se.explore_all(sc, on_schedule, limit=case["dfs_limit"])
+        if complete:
+            ctx.count("generated_scenarios_fully_enumerated")
+        else:
+            se.explore_random(sc, random.Random(case["seed"]), case["n"], on_schedule)
+    elif case["kind"] == "dfs":
         n, complete = se.explore_all(sc, on_schedule, limit=case["limit"])
         ctx.count("scenarios_fully_enumerated" if complete else "scenarios_capped")
         if not complete:
